@@ -47,8 +47,16 @@ Proof.
   apply (pre_commit_untouched f0 p _ ip Hp Hlt Hnt Hc).
 Qed.
 
+(* the totals of a parallel run: every counter of every worker is added (list of `self.f += other.f` lines
+   regenerated from Stats::add) *)
+Theorem C14_merge_all_counters : forall a b,
+  stats_add a b = mk_stats (st_dirs a + st_dirs b) (st_files a + st_files b) (st_processed a + st_processed b) (st_replaced a + st_replaced b)
+                           (st_rewritten a + st_rewritten b) (st_mis a + st_mis b) (st_errors a + st_errors b).
+Proof. exact stats_add_all_fields. Qed.
+
 Print Assumptions C14_partition.
 Print Assumptions C14_parallel_sum.
 Print Assumptions C14_one_count_per_entry.
 Print Assumptions C14_replaced_new_inode.
 Print Assumptions C14_not_replaced_untouched.
+Print Assumptions C14_merge_all_counters.
